@@ -232,6 +232,8 @@ def results(ctx):
                     break
         except (SE.IllTyped, PyRaise) as ex:
             bad = 'ill-formed result (%s)' % ex
+        except KeyError as ex:
+            bad = 'a result still names %s, which is not part of the initial state (a register left unbound or unevaluated)' % (ex,)
         out.append((label, bad is None, ('after [%s]: %s' % (text, bad)) if bad else '%d instructions, %d registers and %d probed cells agree with sequential execution on %d valuations'
                     % (len(history), len(REGS), len(probes), len(VALUATIONS))))
     _CACHE[key] = out
